@@ -60,10 +60,14 @@ Fixpoint to_pchars (nq : bool) (l : list achar) : list pchar :=
   end.
 
 (* ------------------------------------------------- pattern syntax tree (ast.rs) *)
-(* Bracket items.  Collating symbols, equivalence classes and character classes
-   are outside this model's domain (the parser answers [BUnsup]); they belong
-   to property C04. *)
-Inductive bitem := IChar (c : N) | IRange (a b : N).
+(* BracketAtom: a character, a collating symbol [.v.] or an equivalence class
+   [=v=] (the code treats the two alike: [BColl]), a character class [:name:] *)
+Inductive batom := BChar (c : N) | BColl (v : str) | BClass (name : str).
+
+(* BracketItem *)
+Inductive bitem := IAtom (a : batom) | IRange (a b : batom).
+
+Notation IChar c := (IAtom (BChar c)).
 
 Inductive atom :=
 | AChar (c : N)
@@ -74,70 +78,87 @@ Inductive atom :=
 (* ast/parse.rs make_range; [items] is the vector in reverse (head = last element) *)
 Definition make_range (items : list bitem) : list bitem :=
   match items with
-  | IChar e :: IChar h :: IChar s :: rest =>
+  | IAtom e :: IAtom (BChar h) :: IAtom s :: rest =>
       if N.eqb h c_hyphen then IRange s e :: rest else items
   | _ => items
   end.
 
-(* BracketAtom::parse_inner succeeds iff the character after the inner `[` is an
-   unquoted `.`, `=` or `:` and the same unquoted character followed by an
-   unquoted `]` occurs later (not overlapping the opening one). *)
-Fixpoint has_adjacent (d : N) (l : list pchar) : bool :=
+(* BracketAtom::parse_inner: after the inner `[`, an unquoted `.`, `=` or `:`
+   opens an element that ends at the first later occurrence of the same
+   unquoted character followed by an unquoted `]`.  [find_close d l] is the
+   index of that occurrence. *)
+Fixpoint find_close (d : N) (l : list pchar) : option nat :=
   match l with
-  | a :: ((b :: _) as l') => (is_normal a d && is_normal b c_rbr) || has_adjacent d l'
-  | _ => false
+  | a :: ((b :: _) as l') =>
+      if is_normal a d && is_normal b c_rbr then Some O else option_map S (find_close d l')
+  | _ => None
   end.
 
-Definition inner_opens (l : list pchar) : bool :=
+(* the element and the number of pattern characters it takes after the `[` *)
+Definition inner_parse (l : list pchar) : option (batom * nat) :=
   match l with
   | Normal d :: r =>
-      (N.eqb d c_dot || N.eqb d c_equal || N.eqb d c_colon) && has_adjacent d r
-  | _ => false
+      if N.eqb d c_dot || N.eqb d c_equal || N.eqb d c_colon then
+        match find_close d r with
+        | Some i =>
+            let v := map pc_val (firstn i r) in
+            Some (if N.eqb d c_colon then BClass v else BColl v, (3 + i)%nat)
+        | None => None
+        end
+      else None
+  | _ => None
   end.
 
 Inductive bres :=
 | BOk (complement : bool) (items : list bitem) (consumed : nat)
-| BNone      (* no closing bracket: the `[` is an ordinary character *)
-| BUnsup.    (* contains [. .] [= =] or [: :] *)
+| BNone.     (* no closing bracket: the `[` is an ordinary character *)
 
-(* Bracket::parse; [n] counts the pattern characters consumed so far *)
-Fixpoint bracket_loop (compl : bool) (items : list bitem) (ah : bool) (n : nat)
+(* Bracket::parse; [n] counts the pattern characters consumed so far, [skip]
+   those of them that belong to an element already parsed *)
+Fixpoint bracket_loop (compl : bool) (items : list bitem) (ah : bool) (skip n : nat)
     (l : list pchar) : bres :=
   match l with
   | [] => BNone
   | pc :: l' =>
-      if is_normal pc c_rbr && negb (match items with [] => true | _ => false end)
-      then BOk compl (rev items) (S n)
-      else if (is_normal pc c_bang || is_normal pc c_caret) && negb compl
-              && (match items with [] => true | _ => false end)
-      then bracket_loop true (if ah then make_range items else items)
-                        (is_normal pc c_hyphen) (S n) l'
-      else if is_normal pc c_lbr && inner_opens l' then BUnsup
-      else
-        let items1 := IChar (pc_val pc) :: items in
-        bracket_loop compl (if ah then make_range items1 else items1)
-                     (is_normal pc c_hyphen) (S n) l'
+      match skip with
+      | S k => bracket_loop compl items ah k (S n) l'
+      | O =>
+          if is_normal pc c_rbr && negb (match items with [] => true | _ => false end)
+          then BOk compl (rev items) (S n)
+          else if (is_normal pc c_bang || is_normal pc c_caret) && negb compl
+                  && (match items with [] => true | _ => false end)
+          then bracket_loop true (if ah then make_range items else items)
+                            (is_normal pc c_hyphen) O (S n) l'
+          else
+            match (if is_normal pc c_lbr then inner_parse l' else None) with
+            | Some (a, k) =>
+                let items1 := IAtom a :: items in
+                bracket_loop compl (if ah then make_range items1 else items1) false k (S n) l'
+            | None =>
+                let items1 := IChar (pc_val pc) :: items in
+                bracket_loop compl (if ah then make_range items1 else items1)
+                             (is_normal pc c_hyphen) O (S n) l'
+            end
+      end
   end.
 
 (* Ast::new / Atom::parse.  [skip] pattern characters were already consumed by
    a bracket expression. *)
-Fixpoint parse_atoms (skip : nat) (l : list pchar) : option (list atom) :=
+Fixpoint parse_atoms (skip : nat) (l : list pchar) : list atom :=
   match l with
-  | [] => Some []
+  | [] => []
   | pc :: l' =>
       match skip with
       | S k => parse_atoms k l'
       | O =>
-          let cons_ a k := option_map (cons a) (parse_atoms k l') in
-          if is_normal pc c_qm then cons_ AAny O
-          else if is_normal pc c_star then cons_ AStar O
+          if is_normal pc c_qm then AAny :: parse_atoms O l'
+          else if is_normal pc c_star then AStar :: parse_atoms O l'
           else if is_normal pc c_lbr then
-            match bracket_loop false [] false 0 l' with
-            | BOk compl items n => cons_ (ABracket compl items) n
-            | BNone => cons_ (AChar c_lbr) O
-            | BUnsup => None
+            match bracket_loop false [] false 0 0 l' with
+            | BOk compl items n => ABracket compl items :: parse_atoms n l'
+            | BNone => AChar c_lbr :: parse_atoms O l'
             end
-          else cons_ (AChar (pc_val pc)) O
+          else AChar (pc_val pc) :: parse_atoms O l'
       end
   end.
 
@@ -149,23 +170,106 @@ Fixpoint to_literal (p : list atom) : option str :=
   | _ => None
   end.
 
-(* The regex crate rejects a class range whose start is greater than its end
-   (Pattern::parse_with_config then fails and to_pattern returns None). *)
+(* ------------------------------------------------- character classes *)
+(* regex_syntax ClassAsciiKind::from_name and the ASCII ranges of each class
+   (the regex crate's [[:name:]] is ASCII-only also in Unicode mode) *)
+Definition in_rng (a b x : N) : bool := N.leb a x && N.leb x b.
+
+Definition class_names : list (str * (N -> bool)) :=
+  [ ([97;108;110;117;109], fun x => in_rng 48 57 x || in_rng 65 90 x || in_rng 97 122 x);   (* alnum *)
+    ([97;108;112;104;97],  fun x => in_rng 65 90 x || in_rng 97 122 x);                      (* alpha *)
+    ([97;115;99;105;105],  fun x => in_rng 0 127 x);                                          (* ascii *)
+    ([98;108;97;110;107],  fun x => N.eqb x 32 || N.eqb x 9);                                 (* blank *)
+    ([99;110;116;114;108], fun x => in_rng 0 31 x || N.eqb x 127);                            (* cntrl *)
+    ([100;105;103;105;116], fun x => in_rng 48 57 x);                                         (* digit *)
+    ([103;114;97;112;104], fun x => in_rng 33 126 x);                                         (* graph *)
+    ([108;111;119;101;114], fun x => in_rng 97 122 x);                                        (* lower *)
+    ([112;114;105;110;116], fun x => in_rng 32 126 x);                                        (* print *)
+    ([112;117;110;99;116], fun x => in_rng 33 47 x || in_rng 58 64 x || in_rng 91 96 x || in_rng 123 126 x); (* punct *)
+    ([115;112;97;99;101],  fun x => in_rng 9 13 x || N.eqb x 32);                             (* space *)
+    ([117;112;112;101;114], fun x => in_rng 65 90 x);                                         (* upper *)
+    ([119;111;114;100],    fun x => in_rng 48 57 x || in_rng 65 90 x || in_rng 97 122 x || N.eqb x 95); (* word *)
+    ([120;100;105;103;105;116], fun x => in_rng 48 57 x || in_rng 65 70 x || in_rng 97 102 x) (* xdigit *)
+  ].
+
+Fixpoint class_lookup (l : list (str * (N -> bool))) (name : str) : option (N -> bool) :=
+  match l with
+  | [] => None
+  | (n, f) :: l' => if str_eqb n name then Some f else class_lookup l' name
+  end.
+
+Definition class_pred (name : str) : option (N -> bool) := class_lookup class_names name.
+
+(* ------------------------------------------------- validity (ast/regex.rs) *)
+(* fmt_regex_single: the character a range endpoint stands for *)
+Definition atom_first (a : batom) : option N :=
+  match a with
+  | BChar c => Some c
+  | BColl (c :: _) => Some c
+  | BColl [] => None            (* Error::EmptyCollatingSymbol *)
+  | BClass _ => None            (* Error::CharClassInRange *)
+  end.
+
+(* matches_multi_character: a collating symbol / equivalence class of two or
+   more characters *)
+Definition atom_multi (a : batom) : bool :=
+  match a with BColl (_ :: _ :: _) => true | _ => false end.
+
+Definition item_multi (i : bitem) : bool :=
+  match i with IAtom a => atom_multi a | IRange _ _ => false end.
+
+(* to_regex fails (and to_pattern returns None) on an empty collating symbol, an
+   undefined class, a class as range endpoint; the regex crate rejects a range
+   whose start is greater than its end *)
 Definition item_invalid (i : bitem) : bool :=
-  match i with IRange a b => N.ltb b a | _ => false end.
+  match i with
+  | IAtom (BChar _) => false
+  | IAtom (BColl v) => match v with [] => true | _ => false end
+  | IAtom (BClass name) => match class_pred name with Some _ => false | None => true end
+  | IRange a b =>
+      match atom_first a, atom_first b with
+      | Some x, Some y => N.ltb y x
+      | _, _ => true
+      end
+  end.
 
 Definition atom_invalid (a : atom) : bool :=
-  match a with ABracket _ items => existsb item_invalid items | _ => false end.
+  match a with
+  | ABracket _ items => existsb item_invalid items
+  | _ => false
+  end.
 
 (* ------------------------------------------------- matching (lib.rs is_match) *)
+(* one character against one item; a multi-character element never matches a
+   single character (in a complemented bracket it is dropped; if nothing else
+   is left, any character matches: the regex `.`) *)
 Definition item_match (x : N) (i : bitem) : bool :=
   match i with
-  | IChar c => N.eqb x c
-  | IRange a b => N.leb a x && N.leb x b
+  | IAtom (BChar c) => N.eqb x c
+  | IAtom (BColl v) => match v with [c] => N.eqb x c | _ => false end
+  | IAtom (BClass name) => match class_pred name with Some f => f x | None => false end
+  | IRange a b =>
+      match atom_first a, atom_first b with
+      | Some lo, Some hi => N.leb lo x && N.leb x hi
+      | _, _ => false
+      end
   end.
 
 Definition bracket_match (compl : bool) (items : list bitem) (x : N) : bool :=
   xorb compl (existsb (item_match x) items).
+
+(* the multi-character elements of a bracket expression: (?:[..]|ch|..) *)
+Definition item_string (i : bitem) : option str :=
+  match i with
+  | IAtom (BColl v) => if atom_multi (BColl v) then Some v else None
+  | _ => None
+  end.
+
+Fixpoint strip_prefix (v s : str) : option str :=
+  match v with
+  | [] => Some s
+  | c :: v' => match s with x :: s' => if N.eqb x c then strip_prefix v' s' else None | [] => None end
+  end.
 
 (* both ends anchored; backtracking over `*` like the regex engine's priority search *)
 Fixpoint amatch (p : list atom) (s : str) : bool :=
@@ -175,6 +279,14 @@ Fixpoint amatch (p : list atom) (s : str) : bool :=
   | AAny :: p' => match s with _ :: s' => amatch p' s' | [] => false end
   | ABracket compl items :: p' =>
       match s with x :: s' => bracket_match compl items x && amatch p' s' | [] => false end
+      || (negb compl &&
+          existsb (fun i => match item_string i with
+                            | Some v => match strip_prefix v s with
+                                        | Some s' => amatch p' s'
+                                        | None => false
+                                        end
+                            | None => false
+                            end) items)
   | AStar :: p' =>
       (fix star (s : str) : bool :=
          amatch p' s || match s with [] => false | _ :: s' => star s' end) s
@@ -196,21 +308,16 @@ Definition pat_is_match (p : list atom) (name : str) : bool :=
 (* ------------------------------------------------- one component of the field *)
 Inductive cres :=
 | CLit (s : str)          (* no scan: Some(Ok(literal)) or None (invalid pattern) *)
-| CPat (p : list atom)    (* Some(Err(pattern)): the directory is scanned *)
-| CUnsup.                 (* outside the model's domain *)
+| CPat (p : list atom).   (* Some(Err(pattern)): the directory is scanned *)
 
 Definition compile_comp (c : list achar) : cres :=
-  match parse_atoms 0 (to_pchars false c) with
-  | None => CUnsup
-  | Some p =>
-      match to_literal p with
-      | Some s => CLit s
-      | None => if existsb atom_invalid p then CLit (unquote c) else CPat p
-      end
+  let p := parse_atoms 0 (to_pchars false c) in
+  match to_literal p with
+  | Some s => CLit s
+  | None => if existsb atom_invalid p then CLit (unquote c) else CPat p
   end.
 
 Definition is_pat (r : cres) : bool := match r with CPat _ => true | _ => false end.
-Definition is_unsup (r : cres) : bool := match r with CUnsup => true | _ => false end.
 
 (* search_dir splits the remaining field at the first character whose value is
    `/`, whatever its attributes; the list of all components: *)
@@ -256,7 +363,6 @@ Section Search.
                 flat_map (fun name => if scan_ok pat name then push true name else []) entries
             | None => []
             end
-        | CUnsup => []
         end
     end.
 End Search.
@@ -442,11 +548,7 @@ Definition fs_opendir (t : fs) (cwd path : str) : option (list str) :=
 (* ------------------------------------------------- glob *)
 Inductive outcome :=
 | GFields (l : list str)
-| GPanic            (* only ever an implementation output *)
-| GOutOfDomain.
-
-Definition field_supported (field : list achar) : bool :=
-  forallb (fun c => negb (is_unsup (compile_comp c))) (split_slash field).
+| GPanic.           (* only ever an implementation output *)
 
 (* the pathnames found, sorted (empty = nothing found) *)
 Definition glob_paths (t : fs) (cwd : str) (field : list achar) : list str :=
@@ -454,7 +556,6 @@ Definition glob_paths (t : fs) (cwd : str) (field : list achar) : list str :=
 
 Definition glob_model (t : fs) (cwd : str) (noglob : bool) (field : list achar) : outcome :=
   if noglob then GFields [unquote field]
-  else if negb (field_supported field) then GOutOfDomain
   else match glob_paths t cwd field with
        | [] => GFields [unquote field]
        | l => GFields l
